@@ -181,7 +181,13 @@ func (d *DiskFile) Delete() error {
 		panic("tried to delete a file being written")
 	}
 
-	return os.Remove(filepath.Join(d.dir, d.name))
+	// Deleting a file that is already gone succeeds, as it does on the other
+	// file systems. DKV instances that were restored from the same checkpoint
+	// each delete its WAL file once they no longer retain that checkpoint.
+	if err := os.Remove(filepath.Join(d.dir, d.name)); err != nil && !errors.Is(err, os.ErrNotExist) {
+		return err
+	}
+	return nil
 }
 
 func (d *DiskFile) Size() int64 {
